@@ -224,6 +224,7 @@ func (sl *nfSlot) endedListen(name string) string {
 }
 
 type nfWorld struct {
+	noHandlers bool // the server has neither SubscribeHandler nor UnsubscribeHandler
 	mu      sync.Mutex
 	t0      time.Time
 	s       *Server
@@ -353,6 +354,9 @@ func (w *nfWorld) newServer(capT, capP, capR string) {
 	}
 	if any {
 		opts.Capabilities = caps
+	}
+	if w.noHandlers {
+		opts.SubscribeHandler, opts.UnsubscribeHandler = nil, nil
 	}
 	w.s = NewServer(&Implementation{Name: "verif-server", Version: "1"}, opts)
 	w.s.AddReceivingMiddleware(func(next MethodHandler) MethodHandler {
@@ -899,7 +903,15 @@ func (w *nfWorld) apply(toks []string) (obs string) {
 	}
 	switch toks[0] {
 	case "config":
-		if len(toks) != 5 {
+		if len(toks) == 6 && toks[5] == "nohandlers" {
+			// a server without Subscribe/UnsubscribeHandler whose explicit capabilities still say
+			// resources.subscribe (with inferred capabilities `subscribe` is simply not advertised and no URI is
+			// ever granted: that mode needs the resources capability set)
+			if toks[3] == "unset" || w.s != nil {
+				return "bad-op"
+			}
+			w.noHandlers = true
+		} else if len(toks) != 5 {
 			return "bad-op"
 		}
 		w.newServer(toks[1], toks[2], toks[3])
@@ -1979,6 +1991,10 @@ func (g *nfGen) next(w *nfWorld, step int) string {
 			ic := func() string { return g.pick("unset", "unset", "unset", "off", "on") }
 			return fmt.Sprintf("config %s %s %s %s", ic(), ic(), g.pick("unset", "on", "off"), g.hook)
 		}
+		if g.focus == 3 && g.rng.Intn(4) == 0 {
+			// no Subscribe/UnsubscribeHandler at all: every subscription attempt must leave nobody entitled
+			return fmt.Sprintf("config %s %s %s %s nohandlers", pc(), pc(), g.pick("on", "on", "off"), g.hook)
+		}
 		return fmt.Sprintf("config %s %s %s %s", pc(), pc(), pc(), g.hook)
 	}
 	if step == 1 {
@@ -2512,7 +2528,7 @@ func (g *nfGen) body(w *nfWorld) string {
 	return changeOp()
 }
 
-const nfScriptedShapes = 32
+const nfScriptedShapes = 33
 
 // nfScripted: the shapes the property is about, placed at random offsets (so that quick runs always reach them).
 func nfScripted(rng *rand.Rand, hook string, variant int) []string {
@@ -2686,6 +2702,15 @@ func nfScripted(rng *rand.Rand, hook string, variant int) []string {
 	case 31: // the application refuses to unsubscribe: resources/unsubscribe of a legacy session fails and the session stays subscribed; the clean-up of a 2026-07-28 stream ignores the refusal
 		ops = append(ops, "connect c0 1 legacy -", "connect c1 2 modern -", "subscribe c0 u0", "subscribe c1 u0", "policy u0 refuse", "unsubscribe c0 u0", "tables", "rupdated u0",
 			"unsubscribe c1 u0", "tables", "rupdated u0", "policy u0 accept", "unsubscribe c0 u0", "rupdated u0", "tables")
+	case 32: // a server without Subscribe/UnsubscribeHandler: resources/subscribe and resources/unsubscribe fail, a listen naming a URI is refused; nobody is entitled to updates, list-changed subscriptions are unaffected
+		ops[0] = fmt.Sprintf("config on on on %s nohandlers", hook)
+		ops = append(ops, "connect c0 1 legacy -", "connect c1 2 modern r", "listen c1", "subscribe c0 u0", "subscribe c1 u0", "subscribe c0 u2", "tables", "rupdated u0", "rupdated u2",
+			"xlisten c1 L1 t u1 u0", "xlisten c1 L2 t", "tables", "unsubscribe c0 u0", "unsubscribe c1 u0", "policy u0 accept", "subscribe c0 u0", "rupdated u0", "rupdated u1",
+			"change resources add", "change tools add", fmt.Sprintf("advance %d", d))
+		if hook == "hook1" {
+			ops = append(ops, "cbrun tools", "cbrun resources")
+		}
+		ops = append(ops, "tables")
 	case 5: // capability inferred at listen time: nothing to list yet
 		ops = append(ops, "connect c0 1 modern tpr", "listen c0", "tables", "change prompts add", fmt.Sprintf("advance %d", d+1))
 		if hook == "hook1" {
@@ -2711,6 +2736,10 @@ func TestVerifNotify(t *testing.T) {
 			}
 			out.line(cs, op, obs, tags...)
 		}
+		if nfPagesIs(ops) {
+			nfPagesRunOps(t, emit, ops) // client caches with several pages (zz_verif_notifypages_test.go)
+			return
+		}
 		if nfRootsIs(ops) {
 			nfRootsRunOps(t, emit, ops) // a client-side case (zz_verif_notifyroots_test.go)
 			return
@@ -2725,7 +2754,7 @@ func TestVerifNotify(t *testing.T) {
 				if len(f) == 0 || f[0] == "reset" || strings.HasPrefix(op, "#") {
 					continue
 				}
-				if f[0] == "config" && len(f) == 5 {
+				if f[0] == "config" && len(f) >= 5 {
 					f[4] = hookTok // a replay adapts to the tree it runs on
 					op = strings.Join(f, " ")
 				}
@@ -2761,6 +2790,14 @@ func TestVerifNotify(t *testing.T) {
 	}
 	for v := 0; v < nfScriptedShapes; v++ {
 		runOps(fmt.Sprintf("s%d", v), nfScripted(verifRng(int64(v)), hookTok, v), "scripted")
+	}
+	// client caches with several pages: one entry per cursor, a handled list_changed drops them all
+	for v := 0; v < 3; v++ {
+		runOps(fmt.Sprintf("pgs%d", v), nfPagesScripted(v), "scripted")
+	}
+	for c, np := 0, verifN(300, 4000); c < np; c++ {
+		emit := func(op, obs string, tags ...string) { out.line(fmt.Sprintf("pg%d", c), op, obs, tags...) }
+		nfPagesRun(t, emit, nfPagesGen(verifRng(int64(700000+c))))
 	}
 	// client side: the client's roots against every configuration of its roots capability
 	for i, cfg := range nfRootsConfigs {
